@@ -21,7 +21,7 @@ package influxql
 //@   ensures ch == r.buf[(r.i-r.n+3)%3].ch && pos.Line == r.buf[(r.i-r.n+3)%3].pos.Line && pos.Char == r.buf[(r.i-r.n+3)%3].pos.Char
 
 //@ func (*reader).unread
-//@   props C05 C04
+//@   props C05 C04 C06
 //@   safety C05 C04
 //@   modifies r.*
 //@   requires r != nil && 0 <= r.i && r.i < 3 && 0 <= r.n && r.n < 3
@@ -30,7 +30,7 @@ package influxql
 //@   ensures rscur(r.r) == old(rscur(r.r))
 
 //@ func (*reader).read
-//@   props C05 C04
+//@   props C05 C04 C06
 //@   safety C05 C04
 //@   modifies r.*
 //@   let raw = r.r
@@ -100,13 +100,13 @@ package influxql
 // *reader as an io.RuneScanner: ReadRune = read, UnreadRune = unread (used by
 // ScanString, ScanBareIdent, ScanDelimited through the interface).
 //@ func (*reader).ReadRune
-//@   props C05 C04
+//@   props C05 C04 C06
 //@   safety C05 C04
 //@   requires r != nil && 0 <= r.i && r.i < 3 && 0 <= r.n && r.n <= 3
 //@   ensures 0 <= r.i && r.i < 3 && 0 <= r.n && r.n <= 2
 
 //@ func (*reader).UnreadRune
-//@   props C05 C04
+//@   props C05 C04 C06
 //@   safety C05 C04
 //@   requires r != nil && 0 <= r.i && r.i < 3 && 0 <= r.n && r.n < 3
 //@   ensures 0 <= r.i && r.i < 3 && r.n == old(r.n) + 1 && r.i == old(r.i)
